@@ -80,12 +80,16 @@ def worker_main(args) -> int:
             try:
                 mon.run_case(case, ctx)
             except Exception as exc:  # harness bug or unexpected library error: never silently held
-                ctx.violation(
-                    f"harness-exception:{type(exc).__name__}",
-                    f"unhandled exception while running case: {fmt_exc(exc)}",
-                    case,
-                    tb=tb_tail(exc, 6),
-                )
+                if type(exc).__name__ == "HeaderError":
+                    # the independent SIGPROC parser could not read a header the library had just written
+                    ctx.violation("product-header-unparseable", f"a file written by the library does not start with a well-formed SIGPROC header: {fmt_exc(exc)}", case, tb=tb_tail(exc, 6))
+                else:
+                    ctx.violation(
+                        f"harness-exception:{type(exc).__name__}",
+                        f"unhandled exception while running case: {fmt_exc(exc)}",
+                        case,
+                        tb=tb_tail(exc, 6),
+                    )
             if audit_files:
                 ctx.count("input_file_audits", len(sigfile._INPUTS))
                 for pth in sigfile.audit_inputs():
